@@ -6,6 +6,7 @@ import (
 	"math/rand"
 	"path/filepath"
 	"runtime"
+	"strings"
 	"sync"
 	"sync/atomic"
 	"testing"
@@ -281,6 +282,12 @@ func c06Free(r *mon.Run, caseID string, g *rand.Rand, cfg c06Cfg) {
 				}
 				time.Sleep(3 * time.Millisecond)
 			}
+		}
+		if diff != "" {
+			// where the node's goroutines are: a stack dump of everything that has been blocked for a
+			// minute or more in aggkit code (taken before the node is stopped)
+			time.Sleep(65 * time.Second) // the runtime prints waiting times from one minute on
+			scen["goroutines_blocked_in_aggkit"] = blockedAggkitGoroutines()
 		}
 		node.stop()
 		ev := ch.Events()
@@ -668,4 +675,48 @@ func TestC06(t *testing.T) {
 	})
 	r.Set("concurrent_starts_that_converged", int(concStarted.Load()))
 	finish(t, r, r.N(25, 60), "free/*", "rewind/replace*", "rewind/none*", "fork/replaces-served*", "concurrent-start/*", "window/crash-in-reorg*", "window/crash-after-process*", "window/slow-store*", "window/retrack-window*")
+}
+
+// blockedAggkitGoroutines returns the (de-duplicated) stacks of goroutines that have been waiting
+// for at least a minute and have an aggkit frame on their stack
+func blockedAggkitGoroutines() []string {
+	buf := make([]byte, 8<<20)
+	n := runtime.Stack(buf, true)
+	seen := map[string]int{}
+	var order []string
+	for _, g := range strings.Split(string(buf[:n]), "\n\n") {
+		lines := strings.Split(g, "\n")
+		if len(lines) < 2 || !strings.Contains(lines[0], "minutes") || !strings.Contains(g, "github.com/agglayer/aggkit/") {
+			continue
+		}
+		var fr []string
+		for _, l := range lines[1:] {
+			if !strings.HasPrefix(l, "\t") && !strings.HasPrefix(l, "created by") {
+				if i := strings.LastIndex(l, "("); i > 0 {
+					l = l[:i]
+				}
+				fr = append(fr, l)
+			}
+		}
+		if len(fr) > 8 {
+			fr = fr[:8]
+		}
+		state := lines[0]
+		if i := strings.Index(state, "["); i >= 0 {
+			state = state[i:]
+		}
+		key := state[:min(len(state), 14)] + " " + strings.Join(fr, " < ")
+		if seen[key] == 0 {
+			order = append(order, key)
+		}
+		seen[key]++
+	}
+	var out []string
+	for _, k := range order {
+		out = append(out, fmt.Sprintf("%dx %s", seen[k], k))
+		if len(out) >= 12 {
+			break
+		}
+	}
+	return out
 }
